@@ -913,6 +913,14 @@ func writesCheckedInOrder(fn *ssa.Function) bool {
 		if !c.Block().Dominates(calls[i+1].Block()) {
 			return false
 		}
+		// the next section is written on the edge where this write's error IS nil, and the other edge returns the error
+		okE, failE := errEdges(c)
+		if okE == nil || !(okE == calls[i+1].Block() || okE.Dominates(calls[i+1].Block())) {
+			return false
+		}
+		if ret, isRet := failE.Instrs[len(failE.Instrs)-1].(*ssa.Return); !isRet || len(ret.Results) == 0 || !isErrResultOf(ret.Results[len(ret.Results)-1], c) {
+			return false
+		}
 	}
 	if len(calls) == 0 {
 		// all writes made by a chunk-writing helper of the same package: it must check them, and its error be returned
@@ -980,6 +988,8 @@ func checkHeaderSection(w *World, r *Report) {
 	ok := len(args) == 2 && strings.Contains(args[0], `"CPTR"`) && strings.HasPrefix(args[0], `builtin.append("CPTR", list(2, 72, #1(cptv.FieldWriter.Bytes(`) && strings.HasPrefix(args[1], "#0(cptv.FieldWriter.Bytes(")
 	detail := strings.Join(args, " | ")
 	r.Check(ok, "W5", "header = magic 'CPTR' ‖ version 2 ‖ 'H' ‖ field count ‖ fields", w.Pos(fn.Pos()), detail)
+	// ... and the fields follow the magic only when the magic was written (a failed write aborts the header)
+	r.Check(writesCheckedInOrder(fn), "W5", "header section: a failed write aborts the header", w.Pos(fn.Pos()), "")
 	// newThermalRaw writes the header before any frame: WriteHeader called on every successful return
 	// the function that opens a new file: returns a *Builder and writes the header
 	var nt *ssa.Function
@@ -1055,8 +1065,16 @@ func checkBufferedClose(w *World, r *Report) {
 			okAll = false
 		}
 		if len(calls) == 1 {
-			// flush failed: its error is returned
-			if !strings.Contains(ret, "bufio.Writer.Flush(") {
+			// flush failed: its error is returned - on the edge where that error is NOT nil
+			rv := p.Ret.Results[0]
+			for i := 0; i < 4; i++ {
+				if ph, isPhi := rv.(*ssa.Phi); isPhi && p.PhiBind[ph] != nil {
+					rv = p.PhiBind[ph]
+					continue
+				}
+				break
+			}
+			if !strings.Contains(ret, "bufio.Writer.Flush(") || !pathOnNonNilEdge(p, rv) {
 				okAll = false
 			}
 		} else if !(len(calls) == 2 && calls[1] == "os.File.Close" && strings.Contains(ret, "os.File.Close(")) {
@@ -1164,4 +1182,56 @@ func checkRawFileNames(w *World, r *Report) {
 		}
 	}
 	r.Check(n >= 1, "W4", "output file names are derived from a time stamp", "-", fmt.Sprint(n))
+}
+
+// isErrResultOf: v is the error (last) result of call c.
+func isErrResultOf(v ssa.Value, c *ssa.Call) bool {
+	nres := c.Call.Signature().Results().Len()
+	if v == ssa.Value(c) && nres == 1 {
+		return true
+	}
+	ex, ok := v.(*ssa.Extract)
+	return ok && ex.Tuple == ssa.Value(c) && ex.Index == nres-1
+}
+
+// errEdges: the block of c ends in a test of c's error against nil; returns the successor taken when the error is nil
+// and the one taken when it is not. (nil, nil) when there is no such test.
+func errEdges(c *ssa.Call) (okEdge, failEdge *ssa.BasicBlock) {
+	b := c.Block()
+	iff, ok := b.Instrs[len(b.Instrs)-1].(*ssa.If)
+	if !ok {
+		return nil, nil
+	}
+	bo, ok := iff.Cond.(*ssa.BinOp)
+	if !ok {
+		return nil, nil
+	}
+	isNil := func(v ssa.Value) bool { k, ok := v.(*ssa.Const); return ok && k.Value == nil }
+	if !((isNil(bo.X) && isErrResultOf(bo.Y, c)) || (isNil(bo.Y) && isErrResultOf(bo.X, c))) {
+		return nil, nil
+	}
+	switch bo.Op {
+	case token.NEQ:
+		return b.Succs[1], b.Succs[0]
+	case token.EQL:
+		return b.Succs[0], b.Succs[1]
+	}
+	return nil, nil
+}
+
+// pathOnNonNilEdge: the path passed a test "v != nil" on its true edge (or "v == nil" on its false edge).
+func pathOnNonNilEdge(p *Path, v ssa.Value) bool {
+	isNil := func(x ssa.Value) bool { k, ok := x.(*ssa.Const); return ok && k.Value == nil }
+	for _, g := range p.Conds {
+		bo, ok := g.If.Cond.(*ssa.BinOp)
+		if !ok {
+			continue
+		}
+		if (bo.X == v && isNil(bo.Y)) || (bo.Y == v && isNil(bo.X)) {
+			if (bo.Op == token.NEQ && g.Pos) || (bo.Op == token.EQL && !g.Pos) {
+				return true
+			}
+		}
+	}
+	return false
 }
